@@ -104,6 +104,7 @@ type world struct {
 	space  int64
 	f      osmomath.Dec
 	msg    types.MsgServer
+	decoy  map[int]uint64 // user index (1-based) -> that user's position in a second pool (outside the history)
 }
 
 func (w *world) userIdx(addr string) int {
@@ -486,6 +487,24 @@ func recordHistory(t *testing.T, tw *tracelog.Writer, seed int64, nops, drainEve
 	}
 	pool := w.PrepareCustomConcentratedPool(w.TestAccs[0], d0, d1, uint64(w.space), w.f)
 	w.poolID = pool.GetId()
+	// Every second history has a second pool (same denominations, no incentives) in which every user holds one
+	// full-range position; it is never traded on and is not part of the history.  MsgCollectIncentives takes a LIST
+	// of positions: the users then collect for the position of the history and their position in the other pool in
+	// one message - what happens to the first must not depend on what else is listed.
+	if seed%2 == 1 {
+		other := w.PrepareCustomConcentratedPool(w.TestAccs[0], d0, d1, uint64(w.space), w.f)
+		w.decoy = map[int]uint64{}
+		for i, u := range w.users {
+			resp, err := w.msg.CreatePosition(w.Ctx, &types.MsgCreatePosition{PoolId: other.GetId(), Sender: u.String(),
+				LowerTick: types.MinInitializedTick, UpperTick: types.MaxTick,
+				TokensProvided:  sdk.NewCoins(sdk.NewCoin(d0, osmomath.NewInt(1_000_000)), sdk.NewCoin(d1, osmomath.NewInt(1_000_000))),
+				TokenMinAmount0: osmomath.ZeroInt(), TokenMinAmount1: osmomath.ZeroInt()})
+			if err != nil {
+				t.Fatal(err)
+			}
+			w.decoy[i+1] = resp.PositionId
+		}
+	}
 	ups := []int64{}
 	for _, u := range types.SupportedUptimes {
 		ups = append(ups, u.Milliseconds()) // 1ns -> 0
@@ -918,6 +937,10 @@ func recordHistory(t *testing.T, tw *tracelog.Writer, seed int64, nops, drainEve
 			}
 		} else {
 			m := &types.MsgCollectIncentives{PositionIds: []uint64{p.ID}, Sender: w.users[p.Own-1].String()}
+			if dp, ok := w.decoy[p.Own]; ok {
+				m.PositionIds = append(m.PositionIds, dp) // the position in the other pool is listed last
+				ev.Args["withOtherPool"] = true
+			}
 			var resp *types.MsgCollectIncentivesResponse
 			o = w.Try(func(ctx sdk.Context) error {
 				var err error
